@@ -59,7 +59,12 @@ class Checker:
             where = "%s %s" % (where, tag)
         if fn:
             self.functions.add(fn)
-        self.violations.append(dict(rule=rid, key="%s:%s" % (rid, key), where=where, msg=msg))
+        vkey = "%s:%s" % (rid, key)
+        for v in self.violations:
+            if v["key"] == vkey:       # same finding at another instance: count it, report once
+                v["count"] = v.get("count", 1) + 1
+                return
+        self.violations.append(dict(rule=rid, key=vkey, where=where, msg=msg))
 
     def anchor(self, rid, what, obj):
         """Fail closed when an anchor (function, impl, const) is missing."""
@@ -137,8 +142,11 @@ class Checker:
         for rid, r in sorted(self.rules.items()):
             print("  %-8s %4d instances (%d non-trivial, floor %d)  %s" % (rid, r["n"], r["nontrivial"], r["floor"], r["desc"]))
         if real:
-            for v in real:
-                print("  violation %s at %s: %s" % (v["key"], v["where"], v["msg"]))
+            for v in real[:60]:
+                print("  violation %s at %s: %s%s" % (v["key"], v["where"], v["msg"][:700],
+                                                       " [x%d instances]" % v["count"] if v.get("count", 1) > 1 else ""))
+            if len(real) > 60:
+                print("  ... and %d more (see %s)" % (len(real) - 60, vio_path))
             print("VIOLATION property=%s replay=%s" % (self.prop, vio_path))
             return 1
         print("OK property=%s (%d rule instances, %d known findings)" % (self.prop, len(self.instances), len(seen_known)))
